@@ -57,7 +57,23 @@ func (core *JApiCore) buildUserTypes() *jerr.JApiError {
 		}
 	})
 
-	err := core.userTypes.Each(func(n string, _ jschemaLib.Schema) error {
+	// Every type gets the rules before any type is compiled: looking for the
+	// types used by one type compiles the types it depends on as well, and a
+	// compiled schema does not accept rules anymore.
+	dd := core.catalog.GetRawUserTypes()
+	err := core.userTypes.Each(func(n string, ut jschemaLib.Schema) error {
+		for rn, r := range core.rules {
+			if err := ut.AddRule(rn, r); err != nil {
+				return jschemaToJAPIError(err, dd.GetValue(n))
+			}
+		}
+		return nil
+	})
+	if err != nil {
+		return adoptError(err)
+	}
+
+	err = core.userTypes.Each(func(n string, _ jschemaLib.Schema) error {
 		return core.compileUserTypeWithAllDependencies(n)
 	})
 	return adoptError(err)
@@ -88,13 +104,6 @@ func (core *JApiCore) compileUserTypeWithAllDependencies(name string) error {
 	}
 
 	dd := core.catalog.GetRawUserTypes()
-
-	// Add rules before we try to do something with the type.
-	for n, r := range core.rules {
-		if err := currUT.AddRule(n, r); err != nil {
-			return jschemaToJAPIError(err, dd.GetValue(n))
-		}
-	}
 
 	tt, err := fetchUsedUserTypes(currUT, core.userTypes)
 	if err != nil {
